@@ -123,6 +123,9 @@ def standard_variables(kinds: dict, time_dim: str, depth_dim: str, sizes: dict, 
             attrs={'long_name': 'int with missing_value', 'missing_value': np.int32(-8888)})
         add('flag_zero', default_kind, 86000, g, 'int32',
             attrs={'long_name': 'int whose fill marker is zero', '_FillValue': np.int32(0)})
+        if int(np.prod([sizes[d] for d in g])) <= 200:
+            # an unsigned byte without any fill marker, holding zeros (a land/sea or quality flag)
+            add('flag_u8', default_kind, 0, g, 'uint8', attrs={'long_name': 'unsigned byte flag without fill value'})
     data_vars['tser'] = xr.DataArray(
         900.0 + shift + np.arange(sizes[time_dim]), dims=[time_dim], name='tser',
         attrs={'long_name': 'time series on no grid'})
@@ -259,6 +262,9 @@ def build_cf1d(spec: dict) -> tuple[xr.Dataset, Truth]:
     def bounds_for(values, mode, coordinate, name, dim):
         if mode in ('var', 'coord', 'gapped', 'overlap', 'hairline'):
             b = stored_bounds(values, mode if mode in ('gapped', 'overlap', 'hairline') else 'contig')
+            if spec.get('bounds_rows') == 'sorted':
+                # every row (low, high), also on an axis that runs high to low (reanalysis style files)
+                b = np.sort(b, axis=1)
             if spec.get('signed_zero'):
                 # neighbouring cells write their common edge at zero with opposite signs
                 b = b.copy()
@@ -269,6 +275,12 @@ def build_cf1d(spec: dict) -> tuple[xr.Dataset, Truth]:
             return b
         return midpoint_bounds(values)
 
+    if spec.get('valid_range'):
+        # product-style files describe the range of the cell centres on the coordinate itself
+        for coordinate, values in ((lat, lat_values), (lon, lon_values)):
+            coordinate.attrs['valid_min'] = float(np.min(values))
+            coordinate.attrs['valid_max'] = float(np.max(values))
+            coordinate.attrs['actual_range'] = np.array([np.min(values), np.max(values)], dtype='float64')
     lat_b = bounds_for(lat_values, lat_mode, lat, 'lat_bnds', y_dim)
     lon_b = bounds_for(lon_values, lon_mode, lon, 'lon_bnds', x_dim)
 
@@ -667,6 +679,19 @@ def mesh_library(name: str):
     if name == 'M10':
         nodes, faces = mesh_library('M4')
         return nodes + [(1.0, 0.5), (0.25, 1.5)], faces
+    if name == 'M14':
+        # an arrow-head quad (concave at node 1), the triangle that fills its notch, and a triangle hanging below:
+        # nodes 0 and 2 are both corners of the quad, but 0-2 is a diagonal of it, not a side
+        nodes = [(0., 0.), (1., 1.), (2., 0.), (1., 3.), (1., -1.)]
+        return nodes, [[0, 1, 2, 3], [0, 2, 1], [0, 4, 2]]
+    if name == 'M15':
+        # the arrow head with its notch left open
+        nodes = [(0., 0.), (1., 1.), (2., 0.), (1., 3.), (1., -1.)]
+        return nodes, [[0, 1, 2, 3], [0, 4, 2]]
+    if name == 'M13':
+        # two partitions stitched together: the nodes along the seam exist twice, with identical coordinates
+        nodes = [(0., 0.), (1., 0.), (1., 1.), (0., 1.), (1., 0.), (2., 0.), (2., 1.), (1., 1.), (2., 2.), (1., 2.)]
+        return nodes, [[0, 1, 2, 3], [4, 5, 6, 7], [7, 6, 8, 9], [3, 2, 9]]
     if name == 'M12':
         # M4 plus nodes that belong to no face and lie far outside every face
         nodes, faces = mesh_library('M4')
@@ -1197,6 +1222,11 @@ def family_specs(tier: str, *, holes: bool = True, big: bool = True) -> list[dic
     specs.append({'family': 'cf2d', 'ny': 2, 'nx': 3, 'geometry': 'skew', 'lon0': 179.5, 'lat0': -70.0})
     specs.append({'family': 'shoc_standard', 'nj': 2, 'ni': 3, 'lon0': -180.5, 'lat0': 10.0})
     specs.append({'family': 'ugrid', 'mesh': 'M4', 'lon0': 179.0, 'lat0': -45.0})
+    # coordinates in projected metres (magnitudes far beyond degrees); coordinates describing their own valid range
+    specs.append({'family': 'cf2d', 'ny': 3, 'nx': 3, 'geometry': 'skew', 'bounds': 'stored', 'lon0': 512250.0, 'lat0': 6945800.0})
+    specs.append({'family': 'shoc_standard', 'nj': 2, 'ni': 3, 'lon0': 512250.0, 'lat0': 6945800.0, 'dry': 'corner'})
+    specs.append({'family': 'cf1d', 'ny': 3, 'nx': 4, 'valid_range': True})
+    specs.append({'family': 'cf1d', 'ny': 3, 'nx': 3, 'lat_kind': 'desc', 'lon_kind': 'nonuni', 'valid_range': True})
     # big-endian arrays (classic netCDF through scipy)
     specs.append({'family': 'cf1d', 'ny': 2, 'nx': 3, 'bounds': 'var', 'big_endian': True})
     specs.append({'family': 'cf2d', 'ny': 3, 'nx': 3, 'bounds': 'derived', 'holes': 'interior', 'big_endian': True})
